@@ -221,9 +221,16 @@ def main():
                 b.__setstate__(src.__getstate__())      # (loaded: its vectors are exactly two long)
                 return b
             bigstate = (leafcls(big) if is_set else leafcls({k: emb.val(1) for k in big})).__getstate__()
-            for tname, mk, st_of in (('leaf-setstate-retry', lambda: leafcls(), lambda: other.__getstate__()),
-                                     ('used-leaf-setstate-retry', used_leaf, lambda: bigstate),
-                                     ('tree-setstate-retry', lambda: cls(), lambda: build_done().__getstate__())):
+            retries = [('leaf-setstate-retry', lambda: leafcls(), lambda: other.__getstate__()),
+                       ('used-leaf-setstate-retry', used_leaf, lambda: bigstate),
+                       ('tree-setstate-retry', lambda: cls(), lambda: build_done().__getstate__())]
+            if hasattr(leafcls, 'fromBytes'):
+                # fs leaves: the compact byte form (all keys, then all values) is loaded by a routine of its own
+                bigleaf = leafcls({k: emb.val(1) for k in big})
+                retries += [('leaf-frombytes-retry', lambda: leafcls(), lambda: other.toBytes()),
+                            ('used-leaf-frombytes-retry', used_leaf, lambda: bigleaf.toBytes())]
+            for tname, mk, st_of in retries:
+                load = (lambda tg, stt: tg.fromBytes(stt)) if 'frombytes' in tname else (lambda tg, stt: tg.__setstate__(stt))
                 def build_done():
                     t_ = build(path)
                     apply(t_, emb, tr['act'], 0)
@@ -231,19 +238,19 @@ def main():
                 state = st_of()
                 tgt = mk()
                 arm(0)
-                out0 = guarded(lambda: tgt.__setstate__(state))
+                out0 = guarded(lambda: load(tgt, state))
                 n1 = last_allocs[0]
                 want_items = [emb.rk(x) for x in tgt.keys()]
                 counts['partb_calls'] += 1
                 for n in range(1, n1 + 1):
                     tgt = mk()
                     arm(n)
-                    out = guarded(lambda: tgt.__setstate__(state))
+                    out = guarded(lambda: load(tgt, state))
                     counts['partb_faults'] += 1
                     w2 = dict(where, op=tname, fail_at=n, allocations=n1)
                     if out != 'MemoryError':
                         mism.append(dict(w2, kind='no-MemoryError', real=out))
-                    out2 = guarded(lambda: tgt.__setstate__(state))
+                    out2 = guarded(lambda: load(tgt, state))
                     got_items = [emb.rk(x) for x in tgt.keys()]
                     if out2 != 'ok' or got_items != want_items:
                         mism.append(dict(w2, kind='reload-after-failed-load', model=want_items, real=[out2, got_items]))
@@ -253,7 +260,7 @@ def main():
                     # and the other way round: inserts straight after the failed load
                     tgt = mk()
                     arm(n)
-                    guarded(lambda: tgt.__setstate__(state))
+                    guarded(lambda: load(tgt, state))
                     for r in (2, 6, 10, 14, 3, 7):
                         if is_set:
                             tgt.add(emb.key(r))
